@@ -320,7 +320,7 @@ def run_case(case):
             if case["seed"] % 6 in (4, 5):      # (4: compressed input, 5: flat input)
                 claim = max(1000, ns + int(rng.choice([-1, -1, 1])) * int(rng.choice([1, 700, 2500, 9000])))
                 res.count("inputs_with_inconsistent_metadata")
-            b, rec = make_recording(rng, d, ns, n, faults=case["opt"] == 6, nsync=0 if case["seed"] % 5 == 3 else 1, claim_ns=claim)      # some recordings are saved without the sync channel
+            b, rec = make_recording(rng, d, ns, n, faults=case["opt"] == 6, nsync=0 if (case["seed"] % 5 == 3 or (case["opt"] == 6 and case["seed"] % 2 == 1)) else 1, claim_ns=claim)      # some recordings are saved without the sync channel
             if rec.nsync == 0:
                 res.count("zero_sync_recordings")
             container = "bin"
